@@ -66,6 +66,8 @@ class Sched(object):
         self.hold_time_choices = (0.0, 0.0, 0.004, 0.03, 0.25)   # virtual seconds a held thread may stay descheduled
         self.gc_tick = 0
         self.in_gc = False
+        self.unlock_budget = None       # None: no limit; n: at most n stalls after a lock release in this run
+        self.unlock_stall = (1, 2)      # chance that an unlock-hold is a stall (needs stall_choices)
         self.unlock_hold = None         # (n, d): chance that a thread releasing a shared lock is held back
         self.stall_choices = ()         # virtual seconds a pre-empted thread may lose (off by default)
         self.stall_chance = (1, 2)
@@ -508,10 +510,12 @@ class SimLock(object):
     sim-thread in the scheduler.  Only locks marked shared are scheduling points."""
     __slots__ = ('owner', 'shared', 'name')
 
+    new_shared = False          # a world may make every lock created during its run a scheduling point
+
     def __init__(self, shared=False, name=''):
         self.owner = None
-        self.shared = shared
-        self.name = name
+        self.shared = shared or SimLock.new_shared
+        self.name = name or ('dyn' if SimLock.new_shared else '')
 
     def acquire(self, blocking=True, timeout=-1):
         s = CUR
@@ -549,6 +553,16 @@ class SimLock(object):
                     # the releasing thread loses the processor right after the release: the others
                     # run into whatever it was going to do next with the formerly protected state
                     s.probe('unlock_hold')
+                    if s.stall_choices and s.unlock_budget != 0 and s.tape.chance(s.unlock_stall[0], s.unlock_stall[1], 'ustall?'):
+                        if s.unlock_budget is not None:
+                            s.unlock_budget -= 1
+                        # ... or it loses a stretch of virtual time right there (stalled thread)
+                        d = s.tape.choice(s.stall_choices, 'ustall')
+                        s.stalls += 1
+                        s.log('stall', 'unlock:' + self.name, d)
+                        s.probe('stall:unlock')
+                        s.sleep(d)
+                        return
                     s.current._sim_hold = s.decisions + s.tape.choice(s.hold_choices, 'uhold')
                     s.current._sim_hold_t = s.now + s.tape.choice(s.hold_time_choices, 'uholdt')
                     s.yield_('unlock', force_other=True)
